@@ -295,8 +295,9 @@ def project_parts(f):
     return out
 
 
-def observe(lines, diag=True):
-    """run the code under test on one document; every exception it raises is an observation"""
+def observe(lines, diag=True, keep=False):
+    """run the code under test on one document; every exception it raises is an observation.
+    keep=True: the parsed file object stays in obs["file"] (shared-state checks re-dump it later)"""
     from debian._deb822_repro import parse_deb822_file
     from debian._deb822_repro.tokens import tokenize_deb822_file
     obs = {"exc": "none", "dump": None, "tokjoin": None, "kinds": None, "parts": None}
@@ -321,6 +322,8 @@ def observe(lines, diag=True):
         except Exception as e:       # diagnostics only
             obs["parts"] = [[91, 0, []]]
             obs["parts_error"] = "%s: %s" % (type(e).__name__, e)
+    if keep:
+        obs["file"] = f
     return obs
 
 
@@ -342,6 +345,147 @@ def verdict(obs, expected):
         return "dump() = %r" % (obs["dump"],)
     if obs["tokjoin"] != expected:
         return "token texts join to %r" % (obs["tokjoin"],)
+    return None
+
+
+# ------------------------------------------------------------------ process-wide state
+# C01 quantifies over every line sequence regardless of what was parsed before and of what the
+# caller did with earlier results (spec/ReproTokenizerShared.tla: UnmodifiedLossless, Isolation,
+# InputUntouched).  The scenarios below drive the real parser through the behaviours named in that
+# module; expected texts are those of the TLC CASEs, the isolation check is a frame condition
+# (dump before == dump after an operation on ANOTHER document).
+
+def _parse(x):
+    from debian._deb822_repro import parse_deb822_file
+    return parse_deb822_file(x, accept_files_with_error_tokens=True, accept_files_with_duplicated_fields=True)
+
+
+def _tokjoin(x):
+    from debian._deb822_repro.tokens import tokenize_deb822_file
+    return "".join(t.text for t in tokenize_deb822_file(x))
+
+
+def mutate(rng, f, stats=None):
+    """CallerMutates: edit a parsed document through its public API (two operations).  What the
+    edits do to the document itself is the business of C05/C10; exceptions are only counted."""
+    from debian._deb822_repro.parsing import Deb822ParagraphElement
+    done = []
+    for _ in range(2):
+        try:
+            paras = list(f)
+            ops = ["append", "insert0"] + (["set-new", "set-first", "del-first", "sort", "set-multi"] * 2 if paras else [])
+            op = rng.choice(ops)
+            if op in ("append", "insert0"):
+                p = Deb822ParagraphElement.new_empty_paragraph()
+                p["X-Verif-Added"] = "added"
+                if op == "append":
+                    f.append(p)
+                else:
+                    f.insert(0, p)
+            else:
+                p = rng.choice(paras)
+                keys = list(p.keys())
+                if op == "set-new":
+                    p["X-Verif-New"] = "new value"
+                elif op == "set-first":
+                    p[keys[0]] = "changed"
+                elif op == "set-multi":
+                    p[keys[-1]] = "changed\n more\n lines"
+                elif op == "del-first":
+                    del p[keys[0]]
+                else:
+                    p.sort_fields()
+            done.append(op)
+        except Exception as e:
+            done.append("%s!%s" % (op, type(e).__name__))
+            if stats is not None:
+                stats["mutations_raised"] = stats.get("mutations_raised", 0) + 1
+    if stats is not None:
+        stats["mutations"] = stats.get("mutations", 0) + 1
+    return done
+
+
+def _dump_or_exc(f):
+    try:
+        return f.dump()
+    except Exception as e:
+        return "<dump raised %s: %s>" % (type(e).__name__, e)
+
+
+def shared_scenario(lines, expected, other, mseed, stats=None):
+    """other = (lines, expected) of a different in-domain document that shares lines with this one,
+    or None.  Returns None or a message (verdict observables of C01 only)."""
+    rng = random.Random(mseed)
+    L = list(lines)
+    snap = list(L)
+    where = "input %r, expected %r" % (snap, expected)
+    try:
+        # (4) the same line sequence as iterator / generator / the same list object twice; the
+        # caller's list must come back untouched (InputUntouched)
+        forms = [("an iterator", lambda: iter(L)), ("a generator", lambda: (x for x in L)),
+                 ("the list", lambda: L), ("the same list object again", lambda: L)]
+        fA1 = None
+        for label, make in forms:
+            fA1 = _parse(make())
+            d = fA1.dump()
+            if L != snap:
+                return "parsing %s altered the caller's list: now %r; %s" % (label, L, where)
+            if d != expected:
+                return "parsing %s: dump() = %r; %s" % (label, d, where)
+        tj = _tokjoin(L)
+        if L != snap:
+            return "tokenizing altered the caller's list: now %r; %s" % (L, where)
+        if tj != expected:
+            return "tokenizing the same list again: token texts join to %r; %s" % (tj, where)
+        # (3) a different document sharing lines with this one
+        fB = None
+        if other is not None:
+            fB = _parse(list(other[0]))
+            if fB.dump() != other[1]:
+                return "document %r parsed after %r: dump() = %r" % (other[0], snap, fB.dump())
+        # (2) CallerMutates(A1); the other documents and a second parse of the same lines are unaffected
+        ops1 = mutate(rng, fA1, stats)
+        if fB is not None:
+            d = _dump_or_exc(fB)
+            if d != other[1]:
+                return ("after editing (%s) a document parsed from %r, the UNMODIFIED document parsed from %r "
+                        "dumps %r" % (",".join(ops1), snap, other[0], d))
+        fA2 = _parse(list(lines))
+        d = fA2.dump()
+        if d != expected:
+            return ("second parse of the same lines after the first result was edited (%s): dump() = %r; %s"
+                    % (",".join(ops1), d, where))
+        tj = _tokjoin(list(lines))
+        if tj != expected:
+            return "tokenizing again after an earlier result was edited: token texts join to %r; %s" % (tj, where)
+        # Isolation: operations on another document do not change this (edited) document's dump
+        dA1 = _dump_or_exc(fA1)
+        ops2 = mutate(rng, fB if fB is not None else _parse(list(lines)), stats)
+        d = _dump_or_exc(fA1)
+        if d != dA1:
+            return ("editing (%s) ANOTHER document changed the dump of the first document from %r to %r; %s"
+                    % (",".join(ops2), dA1, d, where))
+        d = _dump_or_exc(fA2)
+        if d != expected:
+            return ("after editing (%s) other documents the UNMODIFIED second parse dumps %r; %s"
+                    % (",".join(ops1 + ops2), d, where))
+    except Exception as e:
+        return "the parser raised %s: %s in the shared-state scenario; %s" % (type(e).__name__, e, where)
+    return None
+
+
+def prev_check(prev, cur_lines):
+    """(1) the previous document (kept alive, unmodified) after another document was parsed"""
+    pf, plines, pexp = prev
+    d = _dump_or_exc(pf)
+    if d != pexp:
+        return "after parsing %r the earlier, unmodified document parsed from %r dumps %r" % (cur_lines, plines, d)
+    try:
+        tj = _tokjoin(list(plines))
+    except Exception as e:
+        tj = "<raised %s: %s>" % (type(e).__name__, e)
+    if tj != pexp:
+        return "after parsing %r, tokenizing the earlier input %r again gives %r" % (cur_lines, plines, tj)
     return None
 
 
@@ -380,10 +524,12 @@ def case_texts(case, conc):
     return lines, expected
 
 
-def run_case(ctx, case, conc, with_bytes=False):
-    """returns (message or None, lines, expected)"""
+def run_case(ctx, case, conc, with_bytes=False, keep=None):
+    """returns (message or None, lines, expected); keep: a list that receives the parsed file"""
     lines, expected = case_texts(case, conc)
-    obs = observe(lines)
+    obs = observe(lines, keep=keep is not None)
+    if keep is not None:
+        keep.append(obs.get("file"))
     msg = verdict(obs, expected)
     if msg:
         return "%s; input %r (mode %s), expected %r" % (msg, lines, case["m"], expected), lines, expected
@@ -417,18 +563,47 @@ def case_key(case):
     return (case["m"], tuple(case["ls"]), tuple(case["t"]))
 
 
-def replay_cases(ctx, cases, styles, bytes_every=7):
-    """styles: concretization styles per case (the first one is the canonical minimal form)"""
+def prefix_case(index, case):
+    """the CASE of the document without its last line (a different in-domain document sharing all
+    its lines with `case`), if TLC emitted one"""
+    n = len(case["ls"]) - 1
+    if n < (2 if case["m"] == "N" else 1):
+        return None
+    return index.get((case["m"], tuple(case["ls"][:n]), tuple(case["t"][:n])))
+
+
+def replay_cases(ctx, cases, styles, index, shared_every, stats, bytes_every=7):
+    """styles: concretization styles per case (the first one is the canonical minimal form);
+    shared_every: every n-th case also runs the shared-state scenario (1 = all)"""
     rng = ctx.rng
     n = 0
+    prev = None          # (file, lines, expected, case, conc) of the previous concretization
     for idx, case in enumerate(cases):
         for j, style in enumerate(styles):
             conc = concretize_case(rng, case, style)
-            msg, lines, expected = run_case(ctx, case, conc, with_bytes=((idx + j) % bytes_every == 0))
+            keep = []
+            msg, lines, expected = run_case(ctx, case, conc, with_bytes=((idx + j) % bytes_every == 0), keep=keep)
             n += 1
             if msg:
                 ctx.violation({"kind": "case", "case": case, "conc": conc, "lines": lines, "expected": expected}, msg)
                 break
+            if prev is not None:
+                msg = prev_check(prev[:3], lines)
+                stats["previous_document_rechecked"] = stats.get("previous_document_rechecked", 0) + 1
+                if msg:
+                    ctx.violation({"kind": "prev", "prev_case": prev[3], "prev_conc": prev[4], "case": case,
+                                   "conc": conc}, msg)
+                    break
+            prev = (keep[0], lines, expected, case, conc) if keep and keep[0] is not None else None
+            if idx % shared_every == 0 and j == (idx // shared_every) % min(2, len(styles)):
+                pc = prefix_case(index, case)
+                other = case_texts(pc, conc) if pc is not None else None
+                mseed = rng.randrange(1 << 30)
+                msg = shared_scenario(lines, expected, other, mseed, stats)
+                stats["shared_state_scenarios"] = stats.get("shared_state_scenarios", 0) + 1
+                if msg:
+                    ctx.violation({"kind": "shared", "case": case, "conc": conc, "other_case": pc, "mseed": mseed}, msg)
+                    break
         ctx.case_seen(case_key(case), len(case["ls"]) > 0)
         if len(ctx.violations) >= ctx.max_violation_files:
             break
@@ -537,7 +712,7 @@ def cps(s):
 
 def make_trace(lines, obs):
     outs = []
-    for o in (obs["dump"], obs["tokjoin"]):
+    for o in (obs["dump"], obs["tokjoin"], obs.get("later")):
         if o is not None and cps(o) not in outs:
             outs.append(cps(o))
     return {"lines": [{"t": cps(l), "cls": classify(l)} for l in lines],
@@ -611,17 +786,44 @@ def validate(ctx, docs, with_controls=True):
     return bad, drift, prog
 
 
-def record_and_validate(ctx, g, ndocs, maxlen, batch):
+def sibling_edit(lines, mseed, stats=None):
+    """a second parse of the same lines is edited and dropped (CallerMutates on a sibling document)"""
+    try:
+        g = _parse(list(lines))
+    except Exception:
+        return
+    mutate(random.Random(mseed), g, stats)
+
+
+def add_later(obs):
+    """re-dump a document that is still alive and unmodified; the result is one more observed output
+    of that document (the trace module requires every output to equal Expected)"""
+    f = obs.get("file")
+    if f is not None:
+        obs["later"] = _dump_or_exc(f)
+        obs["file"] = None
+
+
+def record_and_validate(ctx, g, ndocs, maxlen, batch, stats):
     gen = DocGen(g, ctx.rng)
     total_bad = 0
     ndrift = 0
     lens = {}
     for start in range(0, ndocs, batch):
         docs = []
+        ctxs = []
         for _ in range(min(batch, ndocs - start)):
             lines, genc = gen.doc(maxlen)
-            obs = observe(lines)
+            obs = observe(lines, keep=True)
+            mseed = ctx.rng.randrange(1 << 30)
+            sibling_edit(lines, mseed, stats)
+            if docs:
+                # the previous document (unmodified, still alive) after this one was parsed and a
+                # second parse of the previous one was edited
+                add_later(docs[-1][1])
+                ctxs[-1]["next_lines"] = lines
             docs.append((lines, obs))
+            ctxs.append({"mseed": mseed, "next_lines": None})
             b = min(len(lines) // 10 * 10, 40)
             lens[b] = lens.get(b, 0) + 1
             if genc is not None:
@@ -632,10 +834,11 @@ def record_and_validate(ctx, g, ndocs, maxlen, batch):
         for i in bad:
             lines, obs = docs[i]
             total_bad += 1
-            ctx.violation({"kind": "trace", "lines": lines},
+            ctx.violation({"kind": "trace", "lines": lines, "mseed": ctxs[i]["mseed"], "next_lines": ctxs[i]["next_lines"]},
                           "recorded parse rejected by TraceReproTokenizer: the document is in the domain but the "
-                          "output is not the input (exception: %s; dump() = %r; token texts = %r); input %r"
-                          % (obs["exc"], obs["dump"], obs["tokjoin"], lines))
+                          "output is not the input (exception: %s; dump() = %r; token texts = %r; dump() again after "
+                          "the next document was parsed = %r); input %r"
+                          % (obs["exc"], obs["dump"], obs["tokjoin"], obs.get("later"), lines))
         for i in drift:
             lines, obs = docs[i]
             ndrift += 1
@@ -708,7 +911,15 @@ def run(ctx):
         if rn.violated != inv:
             raise core.MachineryError("negative control %s = TRUE did not violate %s (got %r)" % (const, inv, rn.violated))
         neg[const] = "violates " + inv
+    # 2b. process-wide model: unmodified documents stay lossless, edits are isolated
+    ctx.tlc_must_hold("ReproTokenizerShared", "MC_ReproTokenizerShared.cfg", workers=2)
+    rn = ctx.tlc("ReproTokenizerShared", "MC_ReproTokenizerShared_neg.cfg", count=False, workers=2)
+    if rn.violated != "UnmodifiedLossless":
+        raise core.MachineryError("negative control SharedTokens = TRUE did not violate UnmodifiedLossless (got %r)"
+                                  % (rn.violated,))
+    neg["SharedTokens"] = "violates UnmodifiedLossless"
     ctx.extra["spec_negative_controls"] = neg
+    stats = {}
 
     # 3. bounded configurations: the property on every document; CASE replay
     bg = None
@@ -743,10 +954,11 @@ def run(ctx):
                     ([c for c in ct if len(c["ls"]) == 5], ["wild"])]
         n_replayed = 0
         by_len = {}
+        index = {case_key(c): c for cases, _ in plan for c in cases}
         for cases, styles in plan:
             for c in cases:
                 by_len[len(c["ls"])] = by_len.get(len(c["ls"]), 0) + 1
-            n_replayed += replay_cases(ctx, cases, styles)
+            n_replayed += replay_cases(ctx, cases, styles, index, 2 if quick else 1, stats)
             if len(ctx.violations) >= ctx.max_violation_files:
                 break
         ctx.extra["cases_by_length"] = {str(k): v for k, v in sorted(by_len.items())}
@@ -763,11 +975,12 @@ def run(ctx):
         # 4. code -> spec
         if len(ctx.violations) < ctx.max_violation_files:
             ndocs, batch = (1200, 1200) if quick else (12000, 4000)
-            record_and_validate(ctx, g, ndocs, 40, batch)
+            record_and_validate(ctx, g, ndocs, 40, batch, stats)
             ctx.traces += ndocs
             ctx.evaluations += ndocs
             ctx.extra["traces_recorded"] = ndocs
         ctx.traces += n_replayed
+        ctx.extra["shared_state"] = stats
     finally:
         if bg is not None:
             bg.join()       # never leave the background TLC run behind
@@ -779,9 +992,26 @@ def replay(ctx, case):
     if case.get("kind") == "case":
         msg, _, _ = run_case(None, case["case"], case["conc"])
         return msg
+    if case.get("kind") == "prev":
+        pl, pe = case_texts(case["prev_case"], case["prev_conc"])
+        lines, _ = case_texts(case["case"], case["conc"])
+        pobs = observe(pl, keep=True)
+        if pobs.get("file") is None:
+            return "the parser raised %s on %r" % (pobs["exc"], pl)
+        observe(lines)
+        return prev_check((pobs["file"], pl, pe), lines)
+    if case.get("kind") == "shared":
+        lines, expected = case_texts(case["case"], case["conc"])
+        other = case_texts(case["other_case"], case["conc"]) if case.get("other_case") else None
+        return shared_scenario(lines, expected, other, case["mseed"])
     if case.get("kind") == "trace":
         lines = case["lines"]
-        obs = observe(lines)
+        obs = observe(lines, keep=True)
+        if case.get("mseed") is not None:
+            sibling_edit(lines, case["mseed"])
+        if case.get("next_lines") is not None:
+            observe(case["next_lines"])
+            add_later(obs)
         bad, _, _ = validate(ctx, [(lines, obs)], with_controls=False)
         if bad:
             return "recorded parse still rejected by TraceReproTokenizer: exc=%s dump=%r tokens=%r input=%r" % (
